@@ -108,8 +108,8 @@ def expected(ref, s, L):
         return None
     last = sid.string.split("/")[-1]
     raw_search = sid.is_search() or ref.is_search_text(s)
-    if sid and not raw_search and "?" not in sid.string and last not in ref.alias:
-        pats = [sid.string]   # a typed, non-search Sid is found exactly when it is in L
+    if sid and not raw_search and "?" not in s and s.split("/")[-1] not in ref.alias:
+        pats = [sid.string]   # a typed, non-search Sid (a plain Sid string: no symbol, no query, no alias) is found exactly when it is in L
     else:
         # searches, Sids whose last value is an alias, Sids that still carry a query: the unfolding (C07) decides
         try:
